@@ -8,7 +8,7 @@ git -C /repo worktree add -q --detach "$WT" HEAD || exit 9
 cp /repo/klepto/__info__.py "$WT/klepto/"
 cd "$WT"
 PYTHONPATH="$WT" /venv/bin/python "$S/demo.py" >/dev/null 2>&1; P0=$?
-git apply "$S/patch.diff" || { echo "$N: patch does not apply"; exit 9; }
+git apply "$S/patch.diff" 2>/dev/null || patch -p1 -s < "$S/patch.diff" || { echo "$N: patch does not apply"; exit 9; }
 PYTHONPATH="$WT" /venv/bin/python "$S/demo.py" >/tmp/seedconf.$N.out 2>&1; P1=$?
 PYTHONPATH="$WT" /venv/bin/python -m pytest -q -p no:cacheprovider --timeout=900 --continue-on-collection-errors klepto/tests 2>&1 | tail -1 > /tmp/seedconf.$N.pytest
 echo "$N: demo pristine exit=$P0 patched exit=$P1 | pytest: $(cat /tmp/seedconf.$N.pytest) | $(tail -1 /tmp/seedconf.$N.out | cut -c1-160)"
